@@ -21,8 +21,9 @@ Definition counted (w : nat) (l : list Z) : option (list (list Z) * list Z) :=
 
 Definition zb_of (z : Z) : bool := negb (z =? 0)%Z.
 
-(** the harness output: all_done, trace, builds, exits, node, inbound node *)
-Definition parse (obs : list Z) : option (c14obs * list (N * N)) :=
+(** the harness output: all_done, trace, builds, exits, node, inbound node, then the clock values (relative
+    to the base) at which each build / exit had returned *)
+Definition parse_full (obs : list Z) : option (c14obs * list (N * N) * list Z * list Z) :=
   match obs with
   | d :: r0 =>
       match counted 2 r0 with
@@ -30,13 +31,22 @@ Definition parse (obs : list Z) : option (c14obs * list (N * N)) :=
           match counted 4 r1 with
           | Some (bs, r2) =>
               match counted 4 r2 with
-              | Some (xs, [tok; conc; pass; comp; rt; iconc; ipass; icomp; irt]) =>
-                  let n := Z.to_N in
-                  let bl := flat_map (fun g => match g with [a; b; c; e] => [(n a, n b, n c, zb_of e)] | _ => [] end) bs in
-                  let xl := flat_map (fun g => match g with [a; b; c; e] => [(n a, n b, zb_of c, n e)] | _ => [] end) xs in
-                  let tl := flat_map (fun g => match g with [a; b] => [(n a, n b)] | _ => [] end) tr in
-                  Some (mkO (zb_of d) bl xl (n tok) (n conc) (n pass) (n comp) (n rt) (n iconc) (n ipass) (n icomp) (n irt),
-                        filter (fun x => negb (snd x =? 0)) tl)        (* the order in which threads reach "start" is the OS's *)
+              | Some (xs, tok :: conc :: pass :: comp :: rt :: iconc :: ipass :: icomp :: irt :: r3) =>
+                  match counted 1 r3 with
+                  | Some (bt, r4) =>
+                      match counted 1 r4 with
+                      | Some (xt, []) =>
+                          let n := Z.to_N in
+                          let bl := flat_map (fun g => match g with [a; b; c; e] => [(n a, n b, n c, zb_of e)] | _ => [] end) bs in
+                          let xl := flat_map (fun g => match g with [a; b; c; e] => [(n a, n b, zb_of c, n e)] | _ => [] end) xs in
+                          let tl := flat_map (fun g => match g with [a; b] => [(n a, n b)] | _ => [] end) tr in
+                          Some (mkO (zb_of d) bl xl (n tok) (n conc) (n pass) (n comp) (n rt) (n iconc) (n ipass) (n icomp) (n irt),
+                                filter (fun x => negb (snd x =? 0)) tl,        (* the order in which threads reach "start" is the OS's *)
+                                concat bt, concat xt)
+                      | _ => None
+                      end
+                  | None => None
+                  end
               | _ => None
               end
           | None => None
@@ -45,6 +55,8 @@ Definition parse (obs : list Z) : option (c14obs * list (N * N)) :=
       end
   | [] => None
   end.
+Definition parse (obs : list Z) : option (c14obs * list (N * N)) :=
+  match parse_full obs with Some (o, tr, _, _) => Some (o, tr) | None => None end.
 
 Definition enc_obs (o : c14obs) (tr : list (N * N)) : list Z :=
   [zb (o_done o)] ++ flat_map (fun x => [zN (fst x); zN (snd x)]) tr
@@ -71,6 +83,24 @@ Definition agree (co : ccase * list Z) : bool :=
       else zlist_eqb (enc_obs mo (map (fun x => (fst x, pt_code (snd x))) mtr)) (enc_obs o tr)
   end.
 
+(** "never exceed what was recorded", per window: the final readings cover the two 500 ms buckets up to the final
+    clock value; only operations that had not yet returned before that window began can have contributed
+    (this sharper bound is evaluated on traces only; the theorem states the cumulative one) *)
+Definition obs_times (obs : list Z) : list Z * list Z :=
+  match parse_full obs with Some (_, _, bt, xt) => (bt, xt) | None => ([], []) end.
+Definition window_bound (c : ccase) (o : c14obs) (times : list Z * list Z) : bool :=
+  let final := (Z.of_N (cc_base c) + Z.of_N (total_dt (cc_steps c)))%Z in
+  let lo := (Z.of_N (start G (Z.to_N final)) - 500 - Z.of_N (cc_base c))%Z in         (* relative to the base *)
+  let pre := if (cc_mode c =? 2) && (lo <=? 0)%Z then 1 else 0 in
+  let keepb := map (fun t => (lo <=? t)%Z) (fst times) in
+  let keepx := map (fun t => (lo <=? t)%Z) (snd times) in
+  let sel {A} (keep : list bool) (l : list A) : list A := map snd (filter fst (combine keep l)) in
+  let bs := sel keepb (o_builds o) in
+  let xs := sel keepx (o_exits o) in
+  (length (fst times) =? length (o_builds o))%nat && (length (snd times) =? length (o_exits o))%nat &&
+  (o_pass o <=? pre + b_batches false bs) && (o_complete o <=? pre + x_batches false xs) && (o_rt o <=? x_rts false xs) &&
+  (o_ipass o <=? pre + b_batches true bs) && (o_icomplete o <=? pre + x_batches true xs) && (o_irt o <=? x_rts true xs).
+
 (** C14 on the implementation's observations *)
 Definition spec_c14 (co : ccase * list Z) : bool :=
   let c := fst co in
@@ -78,7 +108,8 @@ Definition spec_c14 (co : ccase * list Z) : bool :=
   | None => false
   | Some (o, tr) =>
       negb (existsb (fun x => 90 <=? snd x) tr) &&     (* 99 = a thread panicked, 98 = unknown point *)
-      ok_c14 (cc_base c) (cc_mode c) (cc_progs c) (cc_steps c) o
+      ok_c14 (cc_base c) (cc_mode c) (cc_progs c) (cc_steps c) o &&
+      window_bound c o (obs_times (snd co))
   end.
 
 (** for diagnosis *)
@@ -89,4 +120,14 @@ Definition show (co : ccase * list Z) : list Z * list Z :=
   | Some (o, tr) =>
       let '(mo, mtr) := model_obs false (cc_base c) (cc_mode c) (cc_progs c) (cc_steps c) in
       (enc_obs mo (map (fun x => (fst x, pt_code (snd x))) mtr), enc_obs o tr)
+  end.
+
+(** first touch of brand-new resources by several real threads at once (no model run: the statement
+    is that of C14_one_node): every round must end with one shared, registered node holding all counts *)
+Record ftcase := mkFT { ft_threads : N; ft_rounds : N }.
+Definition agree_ft (co : ftcase * list Z) : bool := true.
+Definition spec_ft (co : ftcase * list Z) : bool :=
+  match snd co with
+  | [rounds; bad] => (rounds =? Z.of_N (ft_rounds (fst co)))%Z && (bad =? 0)%Z
+  | _ => false
   end.
